@@ -134,6 +134,7 @@ def syncNow (hooks : Bool) (st : St) (tid : Nat) (a : Act) : Bool :=
   | .dec t => (st.slots t).isBlk
   | .readRef t _ => hooks && (st.slots t).isBlk
   | .write _ => hooks && isWriting st tid
+  | .alloc _ tag _ _ => tag == tagObj      -- `new Obj` is followed by the atomic increment 0 -> 1 of its (still private) counter
   | _ => false
 
 def traceTok (before after : St) (tid : Nat) (a : Act) : String :=
@@ -146,6 +147,7 @@ def traceTok (before after : St) (tid : Nat) (a : Act) : String :=
   | .dec t => s!"{tid}.dec.{refOf after t}"
   | .readRef t _ => s!"{tid}.ref.{refOf before t}"
   | .write _ => s!"{tid}.wr"
+  | .alloc .. => s!"{tid}.inc.1"
   | _ => s!"{tid}.?"
 
 /-- make sure thread `tid` has a non-empty step list if it has work left -/
